@@ -51,7 +51,23 @@ fn main() {
                 }
             }
         }
-        let text: String = toks.concat();
+        let mut text: String = toks.concat();
+        if it % 5 == 0 {
+            // character-level noise
+            let mut chars: Vec<char> = text.chars().collect();
+            for _ in 0..1 + rng.below(4) {
+                let i = rng.below(chars.len());
+                let pool = ['"', '\'', '`', '\\', '\n', '0', '9', 'e', '.', 'x', '_', '/', '*', '\u{e9}', '\u{feff}', '\u{2028}', '\0', '#', '$', '~', '?', '@'];
+                match rng.below(3) {
+                    0 => {
+                        chars.remove(i);
+                    }
+                    1 => chars.insert(i, pool[rng.below(pool.len())]),
+                    _ => chars[i] = pool[rng.below(pool.len())],
+                }
+            }
+            text = chars.into_iter().collect();
+        }
         let key = match minigo::compile(&text) {
             Ok(p) => {
                 let r = minigo::run(&p, &minigo::RunOpts { max_steps: 200_000, sched: vec![(it % 3) as u8], max_output: 1 << 16 });
